@@ -56,30 +56,36 @@ def hasDuplicateNames : List (List Char) → Bool
   | [] => false
   | n :: rest => rest.contains n || hasDuplicateNames rest
 
+/-- every check `create_table` makes before it changes anything, in the order of the code:
+names, arity, key, duplicates, existence, storability, and that the three catalog tables
+can hold the new rows -/
+def createError (s : Pkg) (name : List Char) (cols : List Column) : Option ErrKind :=
+  if !Table.isValidName name then some .invalidInput else
+  if cols.isEmpty then some .invalidInput else
+  if cols.length > Gen.maxTableColumns then some .invalidInput else
+  if !cols.any (·.isPrimaryKey) then some .invalidInput else
+  if cols.any (fun c => !Category.validate .identifier c.name) then some .invalidInput else
+  if hasDuplicateNames (cols.map (·.name)) then some .invalidInput else
+  if (s.findTable name).isSome then some .alreadyExists else
+  if cols.any (fun c => !isStorable c) then some .invalidInput else
+  if !rowsValidFor (Catalog.columnsTable false) (catalogRowsColumns name cols) then some .invalidInput else
+  if !rowsValidFor (Catalog.tablesTable false) [[.str name]] then some .invalidInput else
+  if !rowsValidFor (Catalog.validationTable false) (catalogRowsValidation name cols) then some .invalidInput else
+  none
+
 /-- `create_table` -/
 def createTable (s : Pkg) (name : List Char) (cols : List Column) : Pkg × Res Unit :=
-  if !Table.isValidName name then (s, .err .invalidInput) else
-  if cols.isEmpty then (s, .err .invalidInput) else
-  if cols.length > Gen.maxTableColumns then (s, .err .invalidInput) else
-  if !cols.any (·.isPrimaryKey) then (s, .err .invalidInput) else
-  if cols.any (fun c => !Category.validate .identifier c.name) then (s, .err .invalidInput) else
-  if hasDuplicateNames (cols.map (·.name)) then (s, .err .invalidInput) else
-  if (s.findTable name).isSome then (s, .err .alreadyExists) else
-  if cols.any (fun c => !isStorable c) then (s, .err .invalidInput) else
-  let cRows := catalogRowsColumns name cols
-  let tRows : List (List Value) := [[.str name]]
-  let vRows := catalogRowsValidation name cols
-  if !rowsValidFor (Catalog.columnsTable false) cRows then (s, .err .invalidInput) else
-  if !rowsValidFor (Catalog.tablesTable false) tRows then (s, .err .invalidInput) else
-  if !rowsValidFor (Catalog.validationTable false) vRows then (s, .err .invalidInput) else
-  match insertRows s Gen.nameColumns.toList cRows with
-  | (s1, .ok ()) =>
-    match insertRows s1 Gen.nameTables.toList tRows with
-    | (s2, .ok ()) =>
-      let s3 := { s2 with tables := insertTable s2.tables ⟨name, cols, s2.pool.longRefs⟩ }
-      insertRows s3 Gen.nameValidation.toList vRows
+  match createError s name cols with
+  | some k => (s, .err k)
+  | none =>
+    match insertRows s Gen.nameColumns.toList (catalogRowsColumns name cols) with
+    | (s1, .ok ()) =>
+      match insertRows s1 Gen.nameTables.toList [[.str name]] with
+      | (s2, .ok ()) =>
+        let s3 := { s2 with tables := insertTable s2.tables ⟨name, cols, s2.pool.longRefs⟩ }
+        insertRows s3 Gen.nameValidation.toList (catalogRowsValidation name cols)
+      | r => r
     | r => r
-  | r => r
 
 def eqStr (col : String) (v : List Char) : Option Ast := some (.bin .eq (.col col.toList) (.lit (.str v)))
 
